@@ -105,6 +105,53 @@ omit [DecidableEq κ] in
 /-- the empty state is valid: a program that creates all its meshes itself needs no hypothesis at all -/
 theorem empty_valid : (⟨Heap.empty, []⟩ : State κ α).Valid := fun _ hr => by simp at hr
 
+/-! ### two derivations from one base -/
+
+/-- FULL statement (not proved, see notes/C01.md): two derivations `o1`, `o2` whose arguments live in the pool of `s`
+    give the same two values whichever is performed first. -/
+def derivations_commute_full (E : Env α) : Prop :=
+  ∀ (s : State κ α), s.Valid → ∀ (o1 o2 : Op κ α), o1.current = true → o2.current = true →
+  ∀ h1 r1 h2 r2 h12 r2' h21 r1',
+    o1.apply E s = some (h1, [r1]) → o2.apply E s = some (h2, [r2]) →
+    o2.apply E ⟨h1, s.pool ++ [r1]⟩ = some (h12, [r2']) →
+    o1.apply E ⟨h2, s.pool ++ [r2]⟩ = some (h21, [r1']) →
+    obs h12 r1 = obs h21 r1' ∧ obs h12 r2' = obs h21 r2
+
+/-- **derivations_commute_partial.** The part of the statement that is about interference: in either order, the
+    derivation performed first is not influenced by the one performed second, and the base (every mesh of the pool)
+    is influenced by neither.  What is missing for the full statement is that the value an operation returns does not
+    depend on where the heap happens to put its arrays (`obs h1 r1 = obs h21 r1'`); that part is checked on the
+    implementation by the `c01.holds.rederive` oracle and, for `Append`, by the value-level correspondence. -/
+theorem derivations_commute_partial (E : Env α) (s : State κ α) (vs : s.Valid) (o1 o2 : Op κ α)
+    (c1 : o1.current = true) (c2 : o2.current = true)
+    (h1 : Heap κ α) (r1 : MeshRep) (h2 : Heap κ α) (r2 : MeshRep)
+    (h12 : Heap κ α) (r2' : MeshRep) (h21 : Heap κ α) (r1' : MeshRep)
+    (a1 : o1.apply E s = some (h1, [r1])) (a2 : o2.apply E s = some (h2, [r2]))
+    (a12 : o2.apply E ⟨h1, s.pool ++ [r1]⟩ = some (h12, [r2']))
+    (a21 : o1.apply E ⟨h2, s.pool ++ [r2]⟩ = some (h21, [r1'])) :
+    obs h12 r1 = obs h1 r1 ∧ obs h21 r2 = obs h2 r2 ∧
+    ∀ r ∈ s.pool, obs h12 r = obs s.heap r ∧ obs h21 r = obs s.heap r := by
+  obtain ⟨f1, v1⟩ := apply_spec E vs c1 a1
+  obtain ⟨f2, v2⟩ := apply_spec E vs c2 a2
+  have vs1 : (⟨h1, s.pool ++ [r1]⟩ : State κ α).Valid := by
+    intro r hr
+    rcases List.mem_append.mp hr with h | h
+    · exact (vs r h).mono f1
+    · exact v1 r h
+  have vs2 : (⟨h2, s.pool ++ [r2]⟩ : State κ α).Valid := by
+    intro r hr
+    rcases List.mem_append.mp hr with h | h
+    · exact (vs r h).mono f2
+    · exact v2 r h
+  refine ⟨op_frame E _ vs1 o2 c2 h12 _ a12 r1 (v1 r1 (by simp)),
+          op_frame E _ vs2 o1 c1 h21 _ a21 r2 (v2 r2 (by simp)), ?_⟩
+  intro r hr
+  constructor
+  · rw [op_frame E _ vs1 o2 c2 h12 _ a12 r ((vs r hr).mono f1)]
+    exact op_frame E s vs o1 c1 h1 _ a1 r (vs r hr)
+  · rw [op_frame E _ vs2 o1 c1 h21 _ a21 r ((vs r hr).mono f2)]
+    exact op_frame E s vs o2 c2 h2 _ a2 r (vs r hr)
+
 /-! ### the defect repaired by 74db58f, as a theorem about the in-place `Append` -/
 
 /-- growth policy used in the witness: double what is needed (Go does this for small slices) -/
@@ -152,6 +199,14 @@ example :
     ((run E0 s00 (witnessPre .append)).pool[5]?).map
         (obs (run E0 (run E0 s00 (witnessPre .append)) (witnessPost .append)).heap)
       = some ⟨1, [0, 1, 2], [], [[(7, [100, 200, 300])]]⟩ := by decide
+
+/-- non-vacuity of `derivations_commute_partial`: after the four `newMesh` steps, `base.Append(a)` and `base.Append(b)`
+    both apply, in both orders -/
+example :
+    ((Op.append 0 1 : Op Nat Nat).apply E0 (run E0 s00 ((witnessPre .append).take 4))).isSome = true ∧
+    (run E0 s00 ((witnessPre .append).take 4 ++ [.append 0 1, .append 0 2])).pool.length = 6 ∧
+    (run E0 s00 ((witnessPre .append).take 4 ++ [.append 0 2, .append 0 1])).pool.length = 6 := by
+  decide +kernel
 
 end C01
 end PolyVerif
